@@ -22,7 +22,8 @@ type c19Case struct {
 	Vals  []string `json:"vals"`
 	New   []string `json:"new,omitempty"` // update phase: new values (same length as Vals)
 	Execs int      `json:"execs"`
-	File  string   `json:"file,omitempty"` // Filename option
+	Other string   `json:"other,omitempty"` // a second test (other name) that makes the same number of calls with its own values first
+	File  string   `json:"file,omitempty"`  // Filename option
 	Ext   string   `json:"ext,omitempty"`
 }
 
@@ -121,7 +122,7 @@ func c19Gen(c *vfCtx, emit func(c19Case)) {
 	c.bound("tokens", vfQ(toks))
 	c.bound("values", len(vals))
 	gov := []string{"go:int", "go:struct", "go:ptr", "go:map", "go:bytes", "go:nil", "go:slice"}
-	names := []string{"TestA", "TestA/s", "TestA/100%", "TestA/s#01", "TestA/%d", "TestA/a_b/c"}
+	names := []string{"TestA", "TestA/s", "TestA/100%", "TestA/s#01", "TestA/%d", "TestA/a_b/c", "TestA/timeout:30s", "TestA/<b>|\"q\"*?"}
 	c.bound("names", names)
 	// every value alone, in every test name (1 call, 2 executions)
 	for _, v := range append(append([]string{}, vals...), gov...) {
@@ -148,6 +149,10 @@ func c19Gen(c *vfCtx, emit func(c19Case)) {
 	}
 	for _, b := range vfBigValues() {
 		emit(c19Case{Name: "TestA/s", API: "ssnap", Vals: []string{b, "small"}, New: []string{"small", b}, Execs: 3})
+	}
+	// two tests whose names differ only in characters that some file systems reserve (or in `/` vs `_`): each keeps its own files
+	for _, pr := range [][2]string{{"TestA/timeout:30s", "TestA/timeout?30s"}, {"TestA/<b>", "TestA/_b_"}, {"TestA/a*", "TestA/a|"}} {
+		emit(c19Case{Name: pr[0], API: "ssnap", Vals: []string{"first test, call 1", "first test, call 2"}, New: []string{"first changed", "first test, call 2"}, Execs: 2, Other: pr[1]})
 	}
 	// Filename / Ext options
 	for _, f := range []string{"cust", "dir/cust", "cu%st"} {
@@ -199,6 +204,7 @@ func c19Run(c *vfCtx, cs c19Case) {
 		ext = ".json"
 	}
 	fileOf := func(k int) string { return fmt.Sprintf("%s_%d.snap%s", base, k, ext) }
+	otherFiles := map[string]string{} // files of a second test (cs.Other), which the calls of cs.Name must leave alone
 	mkcfg := func(upd string) *Config {
 		o := []func(*Config){Dir(dir)}
 		if cs.File != "" {
@@ -275,7 +281,7 @@ func c19Run(c *vfCtx, cs c19Case) {
 				return false
 			}
 		}
-		if n != expected {
+		if n != expected+len(otherFiles) {
 			var have []string
 			for name, oo := range obs {
 				if !oo.IsDir {
@@ -288,6 +294,27 @@ func c19Run(c *vfCtx, cs c19Case) {
 		return true
 	}
 	vfResetState(false, "", true)
+	if cs.Other != "" {
+		to := &vfT{name: cs.Other}
+		for k := range cs.Vals {
+			v := fmt.Sprintf("value %d of the other test", k+1)
+			do(mkcfg(""), to, v)
+			otherFiles[fmt.Sprintf("%s_%d.snap%s", strings.ReplaceAll(cs.Other, "/", "_"), k+1, ext)] = c19Formatted(v)
+		}
+		to.end()
+		if len(to.errs) > 0 {
+			c.violation(class, fmt.Sprintf("recording the other test %s failed: %v", cs.Other, to.errs), cs)
+			return
+		}
+	}
+	defer func() {
+		for f, want := range otherFiles {
+			if got, ok := vfSnapDir(dir)[f]; !ok || string(got.Data) != want {
+				c.violation(class, fmt.Sprintf("test %s wrote %s = %q; after the calls of %s it holds %q (present=%v)", cs.Other, f, want, cs.Name, vfClip(string(got.Data)), ok), cs)
+				return
+			}
+		}
+	}()
 	for e := 1; e <= cs.Execs; e++ {
 		t := &vfT{name: cs.Name}
 		cfg := mkcfg("")
